@@ -813,10 +813,10 @@ def run(chk, P):
     r13_9(chk, P, K)
     chk.floor('R13.9', 1)
     r13_10(chk, P, K)
-    chk.floor('R13.10', 2)
+    chk.floor('R13.10', 1)
     import typestate
     typestate.c13(chk, P)
-    chk.floor('R13.11', 2)
+    chk.floor('R13.11', 1)
     chk.rule('R13.7', 'the close callback has exactly one call site, in ov_clear, guarded by a non-null data source, and failed '
              'opens detach the source first (same obligations as R12.3); ov_clear wipes the handle (R13.3a), so a second '
              'ov_clear sees no data source')
@@ -835,7 +835,7 @@ def run(chk, P):
         def rule(self, rid, text):
             pass
     c12.r12_3(Proxy(chk), P)
-    chk.floor('R13.7', 5)
+    chk.floor('R13.7', 3)
     chk.analysed['k6'] = {'functions_with_acquisitions': len(res), 'relational_summaries': len(K.summary), 'summary_rounds': K.rounds}
     chk.trusted += ['clang 14 front end', 'K3 effect summaries (which parameters a callee frees / keeps / returns fresh)',
                     'libc allocator semantics; libogg init/clear pairs own their memory', 'type-based field classes']
